@@ -35,6 +35,9 @@ def step (i : RouteIn) (line : String) : RouteIn × String :=
     let k : LocalSub := { client := c, share := st.1, filter := st.2 }
     ({ i with locals := i.locals.filter (· != k) }, "ok")
   | ["cnt", t, n] => ({ i with sent := setCnt i.sent t (natOf n) }, "ok")
+  | ["recvpub", _, _, _] =>
+    -- `Node.onStreamEvent` touches neither the peer queues nor the hook layer (C17 `receiver_no_reforward`)
+    (i, "hookcalls=0 queued=0")
   | ["pub", topic, ret] =>
     let o := route i (optStr topic) (ret == "1")
     ({ i with sent := o.sent }, showOut o)
